@@ -27,7 +27,7 @@ PAIRS = {"push": ("PUSH", "PULL"), "dealer": ("DEALER", "ROUTER"), "pub": ("PUB"
 
 
 def scenario(name, linger, n, size, transport="tcp", how="close", pace_us=0, stall_ms=0, pair="push", hwm=1000,
-             smallbuf=False, rcvhwm=None, idle_ms=1500):
+             smallbuf=False, rcvhwm=None, idle_ms=4000):
     ep = S.endpoint(transport, name)
     txt, rxt = PAIRS[pair]
     txo = [S.i32(S.LINGER, linger), S.i32(S.SNDHWM, hwm), S.i32(S.SNDTIMEO, -1)]
@@ -138,6 +138,8 @@ def to_events(sc, meta, r):
         t_end = max(t_end, x.get("t", 0), x.get("tm", 0))
         if e == "ret" and x.get("sock") == "tx" and x.get("op") in ("send", "send_mp") and x.get("res") == "ok":
             ev.append({"e": "accept", "k": int(x["mid"].rsplit(":", 1)[1])})
+        elif e in ("call", "ret") and (x is close_call or x is close_ret) and x.get("op") == "drop":
+            continue        # letting go of the handle closes nothing: the socket lives until the context goes
         elif e == "call" and x is close_call:
             ev.append({"e": "close", "linger": meta["linger"], "t": x["t"], "session": meta["transport"] != "inproc", "how": x["op"]})
         elif e == "ret" and x is close_ret:
@@ -258,6 +260,11 @@ def run(ctx):
         acc = len([e for e in ev if e["e"] == "accept"])
         if acc != meta["n"]:
             ctx.note("%s: %d of %d sends accepted" % (sc["name"], acc, meta["n"]))
+        if meta["how"] == "drop":
+            dl = len([e for e in ev if e["e"] == "deliver"])
+            if dl != acc:
+                ctx.violation("C15:accepted-lost:drop:l%s:%s" % ("inf" if meta["linger"] < 0 else "pos", meta["transport"]),
+                              "%s: the last handle was dropped without close(): %d messages had been accepted, the reading peer received %d" % (sc["name"], acc, dl), rp)
         runs.append((ev, (sc, meta, rp)))
         ctx.extra.setdefault("runs", {})[sc["name"]] = {"accepted": acc, "delivered": len([e for e in ev if e["e"] == "deliver"]),
                                                         "unsent_at_session_end": sum(e["unsent"] for e in ev if e["e"] == "sessend"),
@@ -304,7 +311,7 @@ def run(ctx):
         raise vlib.ToolError("binding self-test failed: %d of %d corrupted histories were accepted" % (len(pert) - flagged, len(pert)))
     ctx.assumptions += [
         "clock tolerance 25 ms for 'not before the linger period ends', 2 s allowance for 'not later', 1 s for 'promptly' (LINGER 0)",
-        "the peer reads until nothing arrives for 1.5 s (2.5 s in the short-linger run); 'all delivered' is demanded when LINGER is -1 or the session finished before the period ended",
+        "the peer reads until nothing arrives for 4 s; 'all delivered' is demanded when LINGER is -1 or the session finished before the period ended",
         "a dropped handle without close() leaves the socket running until the context is terminated (no Drop impl): accepted messages are still delivered, which is what is checked",
     ]
 
